@@ -22,7 +22,8 @@ type protoImpl struct {
 var protos = map[string]protoImpl{}
 
 var optImpl, optScratch, optStream string
-var optPin bool
+var optPin, optKeep bool
+var optFdBase int
 
 func main() {
 	if len(os.Args) < 3 {
@@ -40,6 +41,8 @@ func main() {
 	fs.StringVar(&optImpl, "impl", "", "implementation variant (protocol specific)")
 	fs.StringVar(&optScratch, "scratch", "", "scratch directory for file-backed implementations")
 	fs.StringVar(&optStream, "stream", "", "generator stream (protocol specific)")
+	fs.BoolVar(&optKeep, "keeproot", false, "fs: attach to the existing scratch root (a restarted process) and leave it in place")
+	fs.IntVar(&optFdBase, "fdbase", 0, "fs: number of descriptors handed out before this process started")
 	fs.BoolVar(&optPin, "pin", false, "lock the OS thread and flush every reply (for runs under strace fault injection)")
 	fs.Parse(os.Args[3:])
 	defer proto.Flush()
